@@ -230,7 +230,53 @@ exact: src_covE.
 Qed.
 End SourceCov.
 
+Section SrcCov.
+Variable expm : seq (seq R) -> seq (seq R).
+Hypothesis expm_sound : forall n A, wf n n A -> wf n n (expm A) /\ mx_of n n (expm A) = mexp (mx_of n n A).
+Variables (n : nat) (Ss : seq (Q * seq (seq R))) (Slast : seq (seq R)) (alpha : seq R) (lam : R) (t : Q).
+Hypothesis lam0 : lam <> 0.
+Hypothesis H1 : List.Forall (fun x : Q * seq (seq R) => wf n n x.2) Ss.
+Hypothesis H2 : wf n n Slast.
+Hypothesis H5 : epochs_wf (seq (seq R)) 0%QQ Ss.
+Hypothesis t0 : (0 <= t)%QQ.
+Variable self_reward : seq R.
+Let C := src_cov expm Ss Slast alpha lam t self_reward.
+
+Theorem source_family_covariances_sum (nn nl : nat) (rtot : reward) (I : seq nat) (rl : nat -> reward) (sts : seq state) :
+  size sts = n -> reward_ok nn rtot = true -> all (fun l => reward_ok nn (rl l)) I ->
+  List.Forall (fun s => n_loci s = nl) sts ->
+  List.Forall (fun s => List.fold_right Rplus 0 (List.map (fun l => reward_get OpsR nn (rl l) s) I) = reward_get OpsR nn rtot s) sts ->
+  let rv x := [seq gen_reward_get OpsR nn nl x s | s <- sts] in
+  \sum_(p <- I) \sum_(q <- I) C (rv (rl p)) (rv (rl q)) = C (rv rtot) (rv rtot).
+Proof.
+move=> ssz rok rlok Hnl Hsum rv.
+rewrite /C src_covE /rv -(family_vectors_sum rok rlok Hnl Hsum) ssz.
+rewrite -(@cov_entries_sum_to_variance expm expm_sound n Ss Slast alpha lam t lam0 H1 H2 H5 t0); last first.
+  by apply/allP => x /mapP [d _ ->]; rewrite size_map ssz.
+rewrite big_map; apply: eq_bigr => p _; rewrite big_map; apply: eq_bigr => q _.
+exact: src_covE.
+Qed.
+
+(* SFSDistribution.get_cov(i, j) = moment(k=2, rewards=(CombinedReward([r0, SFS_i]), CombinedReward([r0, SFS_j])), center=True)
+   (pinned in gen/SfsGen.v): the entries of the covariance matrix of the spectrum sum to the variance of the (r0-weighted) total
+   branch length *)
+Theorem source_sfs_covariances_sum_to_branch_length_variance (nn : nat) (r0 : reward) (sts : seq state) :
+  size sts = n -> (2 <= nn)%coq_nat -> reward_ok nn r0 = true -> List.Forall (fun s => bc_inv nn s) sts ->
+  let rv x := [seq gen_reward_get OpsR nn 1 x s | s <- sts] in
+  \sum_(i <- iota 1 (nn - 1)) \sum_(j <- iota 1 (nn - 1)) C (rv (RProduct [:: r0; RUnfoldedSFS i])) (rv (RProduct [:: r0; RUnfoldedSFS j]))
+  = C (rv (RProduct [:: r0; RTotalBranchLength])) (rv (RProduct [:: r0; RTotalBranchLength])).
+Proof.
+move=> ssz n2 r0ok Hinv; apply: source_family_covariances_sum => //.
+- by rewrite /= r0ok.
+- by apply/allP => i; rewrite mem_iota => /andP [i1 _]; rewrite /= r0ok /=; case: i i1.
+- by elim: Hinv => [|s l [h _] _ IH]; constructor.
+- by elim: Hinv => [|s l h _ IH]; constructor => //; exact: sfs_family_decompose.
+Qed.
+End SrcCov.
+
 Print Assumptions raw_slot_linear.
 Print Assumptions cov_entries_sum_to_variance.
 Print Assumptions deme_vectors_sum.
 Print Assumptions source_deme_covariances_sum_to_variance.
+Print Assumptions source_family_covariances_sum.
+Print Assumptions source_sfs_covariances_sum_to_branch_length_variance.
